@@ -156,7 +156,7 @@ Section Print.
       | VU8 n => POk (dec_of_N n)
       | VBool b => POk (if b then str_true else str_false)
       | VStr s => POk (cstr s)
-      | VEnum z => POk ([101;110;117;109;40]%N ++ dec_of_Z z ++ [41%N])
+      | VEnum z => POk (dec_of_Z z)                     (* "%d" of enum_val *)
       | VOpaque n => POk ([111;112;97;113;117;101;40]%N ++ dec_of_N n ++ [41%N])
       | VRef kd l =>
           match (match nth_error h l with Some o => if kind_eqb (kind_of o) kd then Some o else None | None => None end) with
